@@ -28,15 +28,11 @@ import (
 )
 
 type caseCfg struct {
-	base       int
-	variant    int
-	steps      int
-	shutdownAt int
-	real       bool
-}
-
-func (c caseCfg) MarshalJSON() ([]byte, error) {
-	return []byte(fmt.Sprintf(`{"base":%d,"variant":%d,"steps":%d,"shutdown_at":%d,"real_loop":%v}`, c.base, c.variant, c.steps, c.shutdownAt, c.real)), nil
+	Base       int  `json:"base"`
+	Variant    int  `json:"variant"`
+	Steps      int  `json:"steps"`
+	ShutdownAt int  `json:"shutdown_at"`
+	Real       bool `json:"real_loop"`
 }
 
 // execView is the driver's private view of an execution, derived from events.
@@ -75,7 +71,7 @@ type driver struct {
 const watchdog = 40 * time.Second
 
 func runCase(r *ev.Run, cfg caseCfg) {
-	r.Case("base=%d variant=%d steps=%d shutdownAt=%d real=%v", cfg.base, cfg.variant, cfg.steps, cfg.shutdownAt, cfg.real)
+	r.Case("base=%d variant=%d steps=%d shutdownAt=%d real=%v", cfg.Base, cfg.Variant, cfg.Steps, cfg.ShutdownAt, cfg.Real)
 	clk := vclock.New(1000)
 	m := &monitor{
 		r: r, cfg: cfg, clk: clk,
@@ -114,14 +110,14 @@ func runCase(r *ev.Run, cfg caseCfg) {
 	d := &driver{m: m, cfg: cfg, clk: clk, stop: cancel, views: map[*execRec]*execView{}, gate: make(chan struct{})}
 	// The action PRNG depends on the base only, so that variants of one base
 	// share their prefix up to the shutdown step.
-	d.rng = r.Rand(2, uint64(cfg.base))
-	vr := r.Rand(3, uint64(cfg.base), uint64(cfg.variant))
+	d.rng = r.Rand(2, uint64(cfg.Base))
+	vr := r.Rand(3, uint64(cfg.Base), uint64(cfg.Variant))
 	d.postBudget = vr.IntN(16)
-	d.errorsOnly = vr.IntN(3) == 0 && !cfg.real // every error costs the real loop up to 5 s of wall clock
+	d.errorsOnly = vr.IntN(3) == 0 && !cfg.Real // every error costs the real loop up to 5 s of wall clock
 
 	var wg sync.WaitGroup
 	wg.Add(1)
-	if cfg.real {
+	if cfg.Real {
 		go func() {
 			defer wg.Done()
 			program.RunLocal(ctx, func(ctx context.Context, siblingsGroup, dependenciesGroup program.Group) error {
@@ -146,7 +142,7 @@ func runCase(r *ev.Run, cfg caseCfg) {
 	// Teardown: release everything that may still be parked.
 	close(m.abort)
 	cancel()
-	if cfg.real && !d.terminated {
+	if cfg.Real && !d.terminated {
 		// Let the real loop run into its termination bound.
 		done := make(chan struct{})
 		go func() { wg.Wait(); close(done) }()
@@ -248,7 +244,7 @@ func (d *driver) handle(e event) {
 		d.errGate, d.awaitPark = true, false
 	case evTerminated:
 		d.terminated, d.awaitPark = true, false
-		if d.cfg.real {
+		if d.cfg.Real {
 			d.m.mu.Lock()
 			d.m.checkTermination()
 			d.m.mu.Unlock()
@@ -334,7 +330,7 @@ func (d *driver) command(e *execRec, c execCmd) {
 }
 
 func (d *driver) run() {
-	limit := d.cfg.steps + 400
+	limit := d.cfg.Steps + 400
 	for step := 0; ; {
 		d.drain()
 		if d.inconclusive != "" {
@@ -370,7 +366,7 @@ func (d *driver) run() {
 			d.inconclusive = "step limit reached without termination"
 			return
 		}
-		if !d.shutdownDone && step >= d.cfg.shutdownAt {
+		if !d.shutdownDone && step >= d.cfg.ShutdownAt {
 			d.shutdown()
 		}
 		if d.shutdownDone {
@@ -547,14 +543,14 @@ func (d *driver) step() {
 		add(18, complete)
 	}
 	add(6, func() { d.advance(time.Duration(1+rng.IntN(40)) * time.Second) })
-	if !d.cfg.real || d.errReplies < 2 {
+	if !d.cfg.Real || d.errReplies < 2 {
 		add(3, func() {
-			if d.cfg.real {
+			if d.cfg.Real {
 				d.errReplies++
 			}
 			d.m.mu.Lock()
 			d.m.readinessFailures = 1 + rng.IntN(2)
-			if d.cfg.real {
+			if d.cfg.Real {
 				d.m.readinessFailures = 1
 			}
 			d.m.logf("driver: next %d readiness check(s) fail", d.m.readinessFailures)
@@ -581,7 +577,7 @@ func (d *driver) pickReply() string {
 	cur := d.m.cur
 	d.m.mu.Unlock()
 	maxErr := 6
-	if d.cfg.real {
+	if d.cfg.Real {
 		maxErr = 2 // every error costs up to 5 s of wall-clock back-off
 	}
 	for {
@@ -624,7 +620,7 @@ func (d *driver) newExec(sameAs *execRec, invalid bool) (*execRec, *remoteworker
 	if sameAs != nil {
 		dg = &remoteexecution.Digest{Hash: sameAs.digest.Hash, SizeBytes: sameAs.digest.SizeBytes}
 	} else {
-		sum := sha256.Sum256([]byte(fmt.Sprintf("c08-%d-%d-%d", d.cfg.base, d.cfg.variant, d.nextID)))
+		sum := sha256.Sum256([]byte(fmt.Sprintf("c08-%d-%d-%d", d.cfg.Base, d.cfg.Variant, d.nextID)))
 		dg = &remoteexecution.Digest{Hash: hex.EncodeToString(sum[:]), SizeBytes: int64(100 + d.nextID)}
 	}
 	req := &remoteworker.DesiredState_Executing{
